@@ -104,6 +104,24 @@ Definition eligible_segs (l : layout) (s : snap) (T : N) : list seg :=
 Definition snap_gap_free (l : layout) (tr : truth_t) (T : N) (s : snap) : bool :=
   gap_free (truelen_of (nth (N.to_nat (sn_gen s)) tr [])) (eligible_segs l s T) None (sn_idx s).
 
+(** only used to name the failing shape once the outcome is known to be wrong:
+    would a planner that checks nothing but "offset 0 starts the expected index"
+    and "a continuation starts at the bytes written so far" accept the segments,
+    and if so, do all continuations carry the index of their file? *)
+Fixpoint lenient (segs : list seg) (e off : N) (cur : option N) (uni : bool) : option bool :=
+  match segs with
+  | [] => Some uni
+  | s :: tl =>
+      if sg_off s =? 0 then
+        if sg_idx s =? e then lenient tl (e + 1) (sg_size s) (Some (sg_idx s)) uni else None
+      else if sg_off s =? off then
+        match cur with
+        | Some i => lenient tl e (off + sg_size s) cur (uni && (sg_idx s =? i))
+        | None => None
+        end
+      else None
+  end.
+
 Definition v3_plan_ok (x : sx) : sx :=
   let l := dec_layout (nthx 0 x) in
   let T := asN (nthx 1 x) in
@@ -129,9 +147,10 @@ Definition v3_plan_ok (x : sx) : sx :=
            if gap_free (truelen_of t) E None si then
              (if Z.eqb matched (state_at t (end_pos E (si, 0))) then 1 else 31)
            else
-             match apply_segs si E with
-             | inr plan => if forallb file_uniform plan then 20 else 21
-             | inl _ => 22
+             match lenient E si 0 None true with
+             | Some true => 20
+             | Some false => 21
+             | None => 22
              end
      end
    else if (st =? 2) || (st =? 3) then
